@@ -160,6 +160,34 @@ pub mod c20 {
 }
 
 pub mod util {
+    pub mod strains_vec {
+        pub mod inner {
+            pub struct StrainsVec {
+                pub inner: Vec<f64>,
+            }
+            impl StrainsVec {
+                pub fn push(&mut self, v: f64) {
+                    self.inner.push(v);
+                }
+                pub fn len(&self) -> usize {
+                    self.inner.len()
+                }
+                pub fn retain_non_zero(&mut self) {
+                    self.inner.retain(|v| *v != 0.0);
+                }
+                pub fn sort_desc(&mut self) {
+                    self.inner.sort_by(|a, b| b.total_cmp(a));
+                }
+                pub fn retain_non_zero_and_sort(&mut self) {
+                    self.retain_non_zero();
+                    self.sort_desc();
+                }
+                pub unsafe fn transmute_into_vec(self) -> Vec<f64> {
+                    self.inner
+                }
+            }
+        }
+    }
     pub mod sync {
         pub use inner::*;
         pub mod inner {
@@ -282,5 +310,29 @@ pub mod c05 {
             x /= 2.0;
         }
         x
+    }
+}
+
+pub mod c11 {
+    pub fn unchecked(v: &[u32], i: usize) -> u32 {
+        unsafe { *v.get_unchecked(i) }
+    }
+
+    pub use crate::util::strains_vec::inner::StrainsVec;
+
+    pub fn bad_typestate(mut peaks: StrainsVec, extra: f64) -> Vec<f64> {
+        peaks.retain_non_zero_and_sort();
+        if extra >= 0.0 {
+            peaks.push(extra);
+        }
+        unsafe { peaks.transmute_into_vec() }
+    }
+
+    pub fn good_typestate(peaks: StrainsVec) -> Vec<f64> {
+        let mut peaks = peaks;
+        let _n = peaks.len();
+        peaks.retain_non_zero();
+        peaks.sort_desc();
+        unsafe { peaks.transmute_into_vec() }
     }
 }
